@@ -14,6 +14,7 @@ import (
 	"sync/atomic"
 	"time"
 
+	"berty.tech/go-orbit-db/events"
 	"berty.tech/go-orbit-db/iface"
 	cid "github.com/ipfs/go-cid"
 
@@ -55,7 +56,7 @@ func c18Cases(tier string, seed int64) []fw.Case {
 					if rep == 0 && nd == 3 && (m == "write.after-index" || m == "random") {
 						continue
 					}
-					out = append(out, fw.Case{Idx: idx, Seed: rng.Int63(), P: map[string]interface{}{"action": action, "moment": m, "ndbs": nd, "type": storeTypes[idx%3], "postdrop": action == "close-store" && idx%2 == 1, "ctxfirst": action == "close-instance" && idx%2 == 0, "closeerr": action == "close-instance" && idx%4 >= 2}})
+					out = append(out, fw.Case{Idx: idx, Seed: rng.Int63(), P: map[string]interface{}{"action": action, "moment": m, "ndbs": nd, "type": storeTypes[idx%3], "postdrop": action == "close-store" && idx%2 == 1, "ctxfirst": action == "close-instance" && idx%2 == 0, "closeerr": action == "close-instance" && idx%4 >= 2, "legacy": idx%3 == 0}})
 					idx++
 				}
 			}
@@ -159,6 +160,7 @@ func c18Run(c fw.Case) fw.Verdict {
 	e.W.Settle()
 	target := dbs[0]
 	sT := target.Stores[P.Idx]
+	var legacyClosed int64
 	acked := map[string][]string{} // db addr -> hashes acknowledged on P
 	var amu sync.Mutex
 	for i, db := range dbs {
@@ -185,6 +187,45 @@ func c18Run(c fw.Case) fw.Verdict {
 			}
 		}
 		sT = target.Stores[P.Idx]
+	}
+
+	if c.Bool("legacy") {
+		// a short-lived subscription on the legacy channel API: the subscriber's context ends while the
+		// emitter's dequeuing goroutine is between finding its queue empty and going to sleep. The
+		// subscription's goroutines must end and its channel must be closed all the same (the census at
+		// the end of the case decides).
+		lctx, lcancel := context.WithCancel(bg)
+		inHold := make(chan struct{}, 8)
+		release := make(chan struct{})
+		e.H.SetPoint("legacy.before-wait", func(string, []interface{}) {
+			select {
+			case inHold <- struct{}{}:
+			default:
+			}
+			select {
+			case <-release:
+			case <-time.After(100 * time.Millisecond):
+			}
+		})
+		chans := []<-chan events.Event{sT.Subscribe(lctx), sT.Subscribe(lctx)}
+		for range chans {
+			select {
+			case <-inHold:
+			case <-time.After(2 * time.Second):
+			}
+		}
+		lcancel()
+		time.Sleep(time.Millisecond) // the goroutines that watch the context run now
+		close(release)
+		e.H.SetPoint("legacy.before-wait", func(string, []interface{}) {})
+		for _, ch := range chans {
+			go func(ch <-chan events.Event) {
+				for range ch {
+				}
+				atomic.AddInt64(&legacyClosed, 1)
+			}(ch)
+		}
+		v.Count("legacy_subscriptions_cancelled_before_their_dequeuer_slept", int64(len(chans)))
 	}
 
 	if moment == "sync-blocked-in-fetch" {
@@ -448,6 +489,7 @@ func c18Run(c fw.Case) fw.Verdict {
 		time.Sleep(10 * time.Millisecond)
 	}
 	v.Count("goroutine_censuses", 1)
+	v.Count("legacy_channels_closed_after_cancel", atomic.LoadInt64(&legacyClosed))
 	v.Count("datastore_close_errors_injected", int64(atomic.LoadInt32(&fc.CloseFailed)))
 	if len(leaked) > 0 {
 		var sites []string
